@@ -491,6 +491,48 @@ var vkKinds = []vkKind{
 		m.Answer, m.Ns, m.Rcode = nil, nx.Ns, dns.RcodeSuccess
 		return true
 	}},
+	{"wildcard-nsec-rename", 0, func(c *vkTamperCtx, m *dns.Msg) bool {
+		// a positive answer replaced by a NODATA "proved" with the zone's genuine WILDCARD NSEC (and its
+		// genuine RRSIG, Labels = the wildcard's closest encloser) renamed to the query name: a validator
+		// that rebuilds the wildcard owner from the RRSIG's label count verifies the signature although
+		// the record was never generated for this owner
+		if c.zone == nil || !c.zone.Mode.Signed() || len(m.Answer) == 0 || m.Rcode != dns.RcodeSuccess {
+			return false
+		}
+		q := zonemodel.Canon(c.q.Name)
+		labels := dns.SplitDomainName(q)
+		for i := 1; i < len(labels); i++ {
+			wild := "*." + strings.Join(labels[i:], ".") + "."
+			nd := c.u.Answer(c.zone.Apex, wild, dns.TypeNULL, true) // NODATA at the wildcard itself: SOA + the wildcard's own NSEC
+			if nd.Rcode != dns.RcodeSuccess || len(nd.Answer) != 0 {
+				continue
+			}
+			var out []dns.RR
+			found := false
+			for _, rr := range nd.Ns {
+				cp := dns.Copy(rr)
+				owner := strings.EqualFold(cp.Header().Name, wild)
+				if n, ok := cp.(*dns.NSEC); ok && owner {
+					for _, t := range n.TypeBitMap {
+						if t == c.q.Qtype {
+							return false // the wildcard owns the type too: nothing to deny with it
+						}
+					}
+					cp.Header().Name = c.q.Name
+					found = true
+				} else if s, ok := cp.(*dns.RRSIG); ok && owner && s.TypeCovered == dns.TypeNSEC {
+					cp.Header().Name = c.q.Name
+				}
+				out = append(out, cp)
+			}
+			if !found {
+				continue
+			}
+			m.Answer, m.Ns = nil, out
+			return true
+		}
+		return false
+	}},
 	{"replay-nodata-own", 0, func(c *vkTamperCtx, m *dns.Msg) bool {
 		// a positive answer replaced by the zone's own, correctly signed NODATA for ANOTHER type at the
 		// SAME owner: SOA + the owner's NSEC/NSEC3, whose bitmap lists the type that was asked
